@@ -1,58 +1,90 @@
 """C13 — scheduled jobs run once, not early, survive crashes, and only if committed.
 
 Tie A: the scheduler option bounds (`min=` of captured_job_timeout / pickup_job_after) are
-regenerated from mistral/config.py (translate/sched_defaults.py).
+regenerated from mistral/config.py (translate/sched_defaults.py); the operators / CAS filter / invoke-delete
+order of the legacy scheduler from legacy_scheduler.py and the db api (translate/sched_legacy_facts.py).
 Tie B: stream `sched` — random step sequences over 1..3 REAL `DefaultScheduler` objects
 (harness/sched_driver.py) against Model.Sched, full observation compared after every step;
 stream `sched-exhaustive` (thorough tier) — breadth-first enumeration of every step
 interleaving of small configurations (every distinct model state is expanded with every step);
-stream `legacy` — the real LegacyScheduler against the small legacy model.
+stream `legacy` — 1..3 real LegacyScheduler objects against Model.SchedLegacy (select / CAS capture /
+per-call invoke / delete / crash at DB-call granularity; harness/sched_legacy.py).
 Monitor: the property statement evaluated on the real invocation log / job rows only.
 """
 import collections
 import time
 
-GEN = ['sched_defaults']
+GEN = ['sched_defaults', 'sched_legacy_facts']
+LEAN_MODULES = ['Mistral.Props.C13', 'Mistral.Props.C13Legacy']
 MANIFEST = {
-    'technique': 'Lean 4 theorems (induction over all step sequences) over a DB-call-granularity model of the '
-                 'default scheduler protocol and a small legacy-scheduler model; differential check of the model '
-                 'against 1..3 real DefaultScheduler objects stepped deterministically over in-memory sqlite',
-    'text': 'Theorems over ALL step sequences (schedule in a transaction, commit, rollback, clock tick, dispatcher '
-            'pop, CAS capture, invoke, delete, store poll select / capture / loop, crash) of any number of '
-            'instances and jobs: never invoked before execute_at; a rolled-back or uncommitted job is never '
-            'captured or invoked; two captures of one job are at least captured_job_timeout apart (CAS), hence at '
-            'most one invocation when every capturer deletes within the timeout; a committed job is never lost '
-            '(still in the store or already invoked) and a poll by a live instance after '
-            'max(execute_at+pickup_job_after, captured_at+captured_job_timeout) invokes it (crash recovery / '
-            'at-least-once under that explicit fairness hypothesis); has_scheduled_jobs is characterised exactly, '
-            'the full-strength "reports exactly the pending jobs" is refuted by a rolled-back job '
-            '(has_jobs_exact_full_fails, replayed on the real code as a known finding) and proved when the '
-            'in-memory map is fresh. The model is tied to the code by comparing heap, in_memory_jobs, running '
-            'work, job rows, event trace and has_scheduled_jobs answers after every step of random and '
-            '(thorough) exhaustively enumerated interleavings on the real DefaultScheduler/LegacyScheduler.',
+    'technique': 'Lean 4 theorems (induction over all step sequences, inductive invariants, a potential-function '
+                 'argument for liveness) over DB-call-granularity models of the default scheduler protocol and of '
+                 'the legacy scheduler; differential check of both models against 1..3 real DefaultScheduler / '
+                 'LegacyScheduler objects stepped deterministically over in-memory sqlite',
+    'text': 'DEFAULT scheduler - theorems over ALL step sequences (schedule in a transaction, commit, rollback, '
+            'clock tick, dispatcher pop, CAS capture, invoke, delete, store poll select / capture / loop, crash) of '
+            'any number of instances and jobs: never invoked before execute_at; a rolled-back or uncommitted job is '
+            'never captured or invoked; two captures of one job are at least captured_job_timeout apart (CAS), hence '
+            'at most one invocation when every capturer deletes within the timeout; a committed job is never lost '
+            '(still in the store or already invoked); EVENTUAL INVOCATION under weak fairness over arbitrary '
+            'interleavings (eventual_invocation): if the continuation of any reachable state contains k >= 1 complete '
+            'store-poll passes of live instances that each start after max(execute_at+pickup_job_after, '
+            'captured_at+captured_job_timeout) of the job, with k >= slack + abandoned poll loops (slack = live '
+            'instances not holding the job, +1 while never captured; <= n+1), the job is invoked - whoever wins the '
+            'CAS, whoever crashes, whatever is interleaved (pass_progress: every such pass invokes the job or uses up '
+            'one unit of slack); has_scheduled_jobs is characterised exactly, "reports exactly the pending jobs" is '
+            'refuted by a rolled-back job (has_jobs_exact_full_fails, known finding) and proved when the in-memory map '
+            'is fresh. LEGACY scheduler (scheduler_type=legacy, the default; 22 theorems in Props/C13Legacy over ALL '
+            'step sequences of schedule / commit / rollback / tick / select / CAS-capture / per-call invoke / delete / '
+            'crash, any batch_size): never invoked before execution_time; a rolled-back or uncommitted call is never '
+            'captured or invoked; the processing flag is a CAS, captures of a call = its flag <= 1, hence AT MOST ONE '
+            'invocation unconditionally; a committed call leaves the store only after it was invoked; '
+            'has_scheduled_jobs is exact; the crash-recovery / at-least-once clause is FALSE '
+            '(legacy_crash_recovery_full_fails; for all histories: legacy_crashed_capture_never_runs - a call captured '
+            'by an instance that dies is never run by anybody - and legacy_bad_target_strands_batch - a call captured '
+            'in one batch with an un-importable call is never run although the instance lives; both replayed on the '
+            'real LegacyScheduler and recorded as known findings) and proved for calls whose flag is clear '
+            '(legacy_crash_recovery_partial). Both models are tied to the code by comparing the complete observation '
+            '(rows, per-instance volatile state / iteration phase, event traces, has_scheduled_jobs answers) after '
+            'every step of random and (thorough, default scheduler) exhaustively enumerated interleavings; the '
+            'comparison operators, the CAS filters, the 1-second slack of the legacy select and the invoke-before-'
+            'delete order are re-read from the sources on every run (Tie A).',
     'note': 'DB semantics are modelled (transaction atomic, READ COMMITTED visibility emulated by the harness, '
             'update_on_match is a CAS); whole-second integer clock and integer pickup/timeout only (sub-second '
-            'truncation outside the model); liveness is proved for an uninterrupted poll by a live instance, not '
-            'for arbitrary fair schedules; thread scheduling inside one DB call is not modelled; Lean kernel + '
-            'propext/Classical.choice/Quot.sound',
+            'truncation outside the model); eventual invocation is proved for batch_size=None (the default) and its '
+            'fairness hypothesis (complete passes of live instances) is an assumption about the thread scheduler, '
+            'exercised on the real code by the closing phase of every case only; DB errors / retry_on_db_error, '
+            'failing target functions (swallowed by the code) and thread scheduling inside one DB call are not '
+            'modelled; Lean kernel + propext/Classical.choice/Quot.sound',
 }
-RULE = ('a case is one step sequence (schedule-in-tx/commit/rollback/tick/pop/task/pollSelect/pollCapture/pollNext/'
-        'crash, 25-45 random steps chosen from the steps enabled in the real state plus a closing phase that lets '
-        'a live instance poll) on 1-3 real DefaultScheduler instances, 1-4 jobs, pickup 1-3, timeout 1-4, batch '
-        'None/1/2; non-trivial = at least one invocation happened AND at least one of: a CAS capture failed, a job '
-        'was captured twice (recapture), an instance crashed with work in flight, a rolled-back job sat in a heap, '
-        'a job was picked up by the store poll; distinct = distinct canonical step sequence. Exhaustive stream: '
-        'one case per (distinct model state, step) edge, non-trivial when the step changes the state.')
+RULE = ('stream sched: a case is one step sequence (schedule-in-tx/commit/rollback/tick/pop/task/pollSelect/'
+        'pollCapture/pollNext/crash, 25-45 random steps chosen from the steps enabled in the real state plus a '
+        'closing phase that lets a live instance poll) on 1-3 real DefaultScheduler instances, 1-4 jobs, pickup 1-3, '
+        'timeout 1-4, batch None/1/2; non-trivial = at least one invocation happened AND at least one of: a CAS '
+        'capture failed, a job was captured twice (recapture), an instance crashed with work in flight, a '
+        'rolled-back job sat in a heap, a job was picked up by the store poll; distinct = distinct canonical step '
+        'sequence. Exhaustive stream: one case per (distinct model state, step) edge, non-trivial when the step '
+        'changes the state. Stream legacy: one step sequence (schedule / scheduleBad (un-importable target) in a '
+        'transaction, commit, rollback, tick, select, capture, invoke (one target call), delete, crash; 15-35 random '
+        'steps among those enabled in the real state plus a closing phase in which the live instances finish and one '
+        'keeps polling) on 1-3 real LegacyScheduler instances, up to 4 calls, batch None/1/2; non-trivial = an '
+        'invocation happened AND (a CAS was lost, or an instance crashed with captured work, or two instances had '
+        'selected at the same time, or a rolled-back call existed during a select), or a valid call was stranded by '
+        'an aborted batch.')
 TRUSTED = [
     'harness/sched_driver.py: baton-stepped threads, fake condition variable/executor, timeutils clock override, '
     'emulation of READ COMMITTED visibility of the scheduling transaction (row hidden until the commit step)',
+    'harness/sched_legacy.py: the select of _capture_calls is run once and aborted, and re-fed to the real '
+    '_process_delayed_calls (session.merge(load=False) of the stale rows, no store access) so that another instance '
+    'can act between select and CAS; baton thread parked inside each target call and before delete_calls',
     'SQLAlchemy/oslo.db/sqlite: a transaction is atomic, update_on_match is a compare-and-swap, ORDER BY ties are '
     'returned in an unspecified order (the harness feeds the model order back when only ties differ)',
     'sub-second behaviour (utc_now_sec truncation), float values of pickup_job_after/captured_job_timeout, and '
     'interleavings inside one DB call are outside the model',
-    'liveness (committed_runs / crash_recovery) is proved for an uninterrupted select-capture-loop of one live '
-    'instance; arbitrary fair interleavings are exercised by the monitor only',
-    'translator translate/sched_defaults.py (AST read of the scheduler options in config.py)',
+    'liveness: eventual_invocation holds under its explicit fairness hypothesis (k complete store-poll passes of '
+    'live instances after the time thresholds, k >= slack + abandoned loops, batch_size None); that real threads '
+    'provide such passes is assumed, the closing phase of each case exercises it on the real code',
+    'translators translate/sched_defaults.py, translate/sched_legacy_facts.py (AST reads, fail closed)',
 ]
 ASSUMPTIONS = ['in-memory sqlite; scheduler threads never started (their bodies are stepped by the harness)']
 
@@ -545,8 +577,17 @@ def search(ctx):
         return
     small2 = dict(EXH[1], depth=8, max_runs=800, name='search-2inst-2jobs')
     exhaustive(ctx, small2, time.time() + 35, stream='search')
+    # the legacy scheduler: its fixed corpus again and a wider random population
+    from harness import sched_legacy
+    if len(ctx.violations) == before:
+        for case in sched_legacy.CORPUS:
+            sched_legacy.run_fixed(ctx, case, stream='search-legacy')
     k = 0
-    while len(ctx.violations) == before and time.time() - t0 < 150 and k < 600:
+    while len(ctx.violations) == before and time.time() - t0 < 140 and k < 150:
+        sched_legacy.random_case(ctx, ctx.rng, stream='search-legacy')
+        k += 1
+    k = 0
+    while len(ctx.violations) == before and time.time() - t0 < 190 and k < 600:
         random_case(ctx, ctx.rng, stream='search')
         k += 1
 
